@@ -13,7 +13,7 @@ from ..common import Check, Mismatch, blame
 PROPERTY = "C11"
 RULE = ("2-4 one-dimensional datasets with key columns of int32/int64/float/str (duplicates, differing string widths), joins 1-1, "
         "n-n (2-3 keys), 1-n, n-1 registered with Data.join_on_key or JoinLink through the collection, chains and cycles; a "
-        "selection evaluable on exactly one dataset (or on none: 'and' over two datasets); generated earlier evaluations on other "
+        "selection evaluable on exactly one dataset - an inequality, or a row-position (element) selection bound to it and copied 0-2 times - (or on none: 'and' over two datasets); generated earlier evaluations on other "
         "datasets (incl. incompatible ones) precede the read; JoinLinks removed from and added back to the collection between reads; views on the target. Oracle: join model by value. Non-trivial = "
         "selection not evaluable on the target, proper non-empty subset of the source, target has matching and non-matching keys; "
         "distinct by spec hash.")
@@ -108,6 +108,8 @@ def direct_mask(spec, t):
         return None
     if sel["data"] != t:
         return None
+    if sel["kind"] == "element":
+        return [i in sel["indices"] for i in range(spec["datasets"][t]["n"])]
     vals = pyvals(spec, t, sel["col"])
     thr = sel["thr"]
     if isinstance(vals[0], str):
@@ -138,6 +140,14 @@ def build_selection(spec, datas):
         return InequalitySubsetState(datas[di].id["k%d" % ci], thr, gen.OPS[op])
     if sel["kind"] == "one":
         return one(sel["data"], sel["col"], sel["op"], sel["thr"])
+    if sel["kind"] == "element":
+        # a selection of rows by position, bound to one dataset (what a table viewer makes); edit modes, paste and composites
+        # hand on copies of it, and the copy is as much bound to its dataset as the original
+        from glue.core.subset import ElementSubsetState
+        state = ElementSubsetState(indices=list(sel["indices"]), data=datas[sel["data"]])
+        for _ in range(sel.get("copies", 0)):
+            state = state.copy()
+        return state
     if sel["kind"] == "two":
         return AndState(one(sel["data"], sel["col"], sel["op"], sel["thr"]), one(sel["data2"], sel["col2"], "ne", sel["thr2"]))
     from glue.core import Data
@@ -205,7 +215,7 @@ def fn_join(spec, rec):
                            {"target": t, "got": got.astype(int).tolist(), "expected_any_of": [e.astype(int).tolist() for e in exps]})
     spec = full_spec if not edits else spec
     t = spec["target"]
-    src = direct_mask(spec, spec["selection"].get("data", 0)) if spec["selection"]["kind"] == "one" else None
+    src = direct_mask(spec, spec["selection"].get("data", 0)) if spec["selection"]["kind"] in ("one", "element") else None
     full = model(spec, t, [])
     rec.nt(direct_mask(spec, t) is None and src is not None and any(src) and not all(src) and bool(full) and any(full[0]) and not all(full[0]))
     rec.label("shape:" + shape_tag(spec, t), "sel:" + spec["selection"]["kind"], "ndata:%d" % len(datas))
@@ -287,13 +297,16 @@ def join_cases(draw):
         # registering an equal JoinLink twice is the unspecified corner of LinkManager.add_link (DESIGN C03 S): not generated
         dup = any({j["a"], j["b"]} == {a, b} for j in joins)
         joins.append({"a": a, "b": b, "ca": list(ca), "cb": list(cb), "via_link": (not dup) and draw(st.booleans())})
-    kind = draw(st.sampled_from(["one", "one", "one", "one", "two", "none"]))
+    kind = draw(st.sampled_from(["one", "one", "one", "one", "two", "none", "element", "element"]))
     sd = draw(st.integers(0, nd - 1))
     sc = draw(st.integers(0, len(datasets[sd]["cols"]) - 1))
     if family == "num":
         sel = {"kind": kind, "data": sd, "col": sc, "op": draw(st.sampled_from(["gt", "ge", "lt", "eq", "ne"])), "thr": float(draw(st.integers(0, 4)))}
     else:
         sel = {"kind": kind, "data": sd, "col": sc, "op": draw(st.sampled_from(["eq", "ne"])), "thr": draw(st.sampled_from(["a", "b", "ab"]))}
+    if kind == "element":
+        sel = {"kind": kind, "data": sd, "indices": sorted(draw(st.sets(st.integers(0, datasets[sd]["n"] - 1), max_size=datasets[sd]["n"]))),
+               "copies": draw(st.integers(0, 2))}
     if kind == "two":
         sd2 = (sd + 1) % nd
         sel.update({"data2": sd2, "col2": 0, "thr2": 99.0 if family == "num" else "zz"})
